@@ -63,6 +63,67 @@ theorem readAll_bound (L size : Nat) (o : InflObs) (b : Bytes) (hL : L > 0) (h :
   unfold readAll at h
   exact readLoop_bound L hL _ _ _ _ _ b (by simp) h
 
+/-- bytes in the inflate buffer when the loop ends, whatever the outcome -/
+def RA.held : RA → Nat
+  | .ok b => b.length
+  | .tooLarge h => h
+  | .failed h => h
+  | .stuck => 0
+
+theorem probe_held (buf : Bytes) : ∀ (steps : List RdStep), (probe buf steps).held ≤ buf.length := by
+  intro steps
+  induction steps with
+  | nil => simp [probe, RA.held]
+  | cons st rest ih =>
+    unfold probe
+    split
+    · simp [RA.held]
+    · split
+      · simp [RA.held]
+      · split
+        · simp [RA.held]
+        · exact ih
+
+theorem readLoop_held (L : Nat) (hL : L > 0) : ∀ (steps : List RdStep) (buf rest : Bytes) (need : Nat) (same : Option Nat),
+    buf.length ≤ L → (readLoop L steps buf rest need same).held ≤ L := by
+  intro steps
+  induction steps with
+  | nil => intro buf rest need same _; simp [readLoop, RA.held]
+  | cons st steps ih =>
+    intro buf rest need same hb
+    unfold readLoop
+    simp only
+    by_cases hc : (capOk st need same && readOk st (clampEnd L st.cap - buf.length) rest.length) = false
+    · rw [if_pos hc]; simp [RA.held]
+    · rw [if_neg hc]
+      have hn : st.n ≤ clampEnd L st.cap - buf.length := by
+        simp only [Bool.and_eq_false_iff, not_or, Bool.not_eq_false] at hc
+        have := hc.2
+        simp only [readOk, Bool.and_eq_true, decide_eq_true_eq] at this
+        exact this.1.1
+      have hlen : (buf ++ rest.take st.n).length ≤ L := by
+        have := clampEnd_le L st.cap hL
+        simp only [List.length_append, List.length_take]
+        omega
+      by_cases h1 : (st.st == 1) = true
+      · rw [if_pos h1]; exact hlen
+      · rw [if_neg h1]
+        by_cases h2 : (st.st != 0) = true
+        · rw [if_pos h2]; exact hlen
+        · rw [if_neg h2]
+          by_cases h3 : ((buf ++ rest.take st.n).length == clampEnd L st.cap) = true
+          · rw [if_pos h3]
+            by_cases h4 : L > 0 ∧ (buf ++ rest.take st.n).length + 1 > L
+            · rw [if_pos h4]; exact Nat.le_trans (probe_held _ _) hlen
+            · rw [if_neg h4]; exact ih _ _ _ _ hlen
+          · rw [if_neg h3]; exact ih _ _ _ _ hlen
+
+/-- C15: the inflate buffer never holds more than the limit, whether the message is accepted, refused as too large
+    (the bomb itself) or the inflater fails -/
+theorem readAll_held (L size : Nat) (o : InflObs) (hL : L > 0) : (readAll L size o).held ≤ L := by
+  unfold readAll
+  exact readLoop_held L hL _ _ _ _ _ (by simp)
+
 /-- C15 (progress of the loop): when the buffer is full and still below the limit it grows by at least one byte -/
 theorem growBy_pos (L l : Nat) (hl : l > 0) (hL : L = 0 ∨ l + 1 ≤ L) : growBy L l > 0 := by
   unfold growBy
@@ -402,5 +463,115 @@ theorem control_oversize_refused (g : Cfg) (s : S) (h : HdrInfo) (hd : decodeHdr
     unfold sizeCheck
     simp [hc, hbig]
   rw [this]
+
+/-! ### the unparsed cache is bounded by the message limit as well -/
+
+theorem mkHdr_headLen_le (x0 x1 : UInt8) (n : Int) (hl : Nat) (h : hl ≤ 10) : (mkHdr x0 x1 n hl).headLen ≤ 14 := by
+  simp only [mkHdr]; split <;> omega
+
+theorem decodeHdr_neg_len (c : Bytes) (h : HdrInfo) (hd : decodeHdr c = some (.ok h)) (hb : ¬ h.bodyLen ≥ 0) : c.length < 10 := by
+  match c, hd with
+  | [], hd => simp
+  | [x], hd => simp
+  | x0 :: x1 :: rest, hd =>
+    unfold decodeHdr at hd
+    simp only at hd
+    by_cases h126 : (x1.toNat % 128 == 126) = true
+    · rw [if_pos h126] at hd
+      by_cases hr : rest.length ≥ 2
+      · rw [if_pos hr] at hd; cases hd; simp [mkHdr] at hb
+      · rw [if_neg hr] at hd; simp only [List.length_cons]; omega
+    · rw [if_neg h126] at hd
+      by_cases h127 : (x1.toNat % 128 == 127) = true
+      · rw [if_pos h127] at hd
+        by_cases hr : rest.length ≥ 8
+        · rw [if_pos hr] at hd
+          split at hd
+          · cases hd
+          · cases hd; simp [mkHdr] at hb
+        · rw [if_neg hr] at hd; simp only [List.length_cons]; omega
+      · rw [if_neg h127] at hd; cases hd; simp [mkHdr] at hb; omega
+
+/-- while Parse waits for more input, what it keeps is an incomplete header (< 14 bytes) or an incomplete frame whose
+    declared payload passed the size checks: at most 125 bytes for a control frame, at most what the message limit
+    still admits otherwise -/
+theorem need_cache_lt (g : Cfg) (s : S) (hL : g.msgLimit > 0) (h : nextFrame g s = .need) :
+    s.cache.length < 14 + max 125 (g.msgLimit - msgLen s) := by
+  have hmax : 125 ≤ max 125 (g.msgLimit - msgLen s) := Nat.le_max_left _ _
+  have hmax2 : g.msgLimit - msgLen s ≤ max 125 (g.msgLimit - msgLen s) := Nat.le_max_right _ _
+  unfold nextFrame at h
+  split at h
+  · -- fewer than two bytes
+    rename_i hd
+    unfold decodeHdr at hd
+    split at hd
+    · simp only at hd; repeat' split at hd
+      all_goals cases hd
+    · rename_i hne
+      match hc : s.cache with
+      | [] => simp only [List.length_nil]; omega
+      | [x] => simp only [List.length_cons, List.length_nil]; omega
+      | x0 :: x1 :: r => exact absurd hc (by intro hh; exact hne x0 x1 r hh)
+  · cases h
+  · rename_i hd hdec
+    split at h
+    · cases h
+    · rename_i hsz
+      have hhl : hd.headLen ≤ 14 := by
+        unfold decodeHdr at hdec
+        split at hdec
+        · simp only at hdec
+          repeat' split at hdec
+          all_goals (first | (cases hdec; done) | (cases hdec; exact mkHdr_headLen_le _ _ _ _ (by omega)))
+        · cases hdec
+      split at h
+      · split at h <;> cases h
+      · rename_i hnot
+        by_cases hb : hd.bodyLen ≥ 0
+        · have hlt : s.cache.length < hd.headLen + hd.bodyLen.toNat :=
+            Nat.lt_of_not_le (fun hge => hnot ⟨hb, hge⟩)
+          -- the declared length passed the size checks
+          have hbody : hd.bodyLen.toNat ≤ 125 ∨ hd.bodyLen.toNat ≤ g.msgLimit - msgLen s := by
+            unfold sizeCheck at hsz
+            by_cases hc : isControl hd.opcode = true
+            · simp only [hc, Bool.not_true, Bool.false_and, Bool.false_eq_true, if_false, Bool.and_true] at hsz
+              split at hsz
+              · cases hsz
+              · rename_i hn; simp only [decide_eq_true_eq] at hn; left; omega
+            · have hc' : isControl hd.opcode = false := by simpa using hc
+              simp only [hc', Bool.not_false, Bool.true_and, Bool.and_false, Bool.false_eq_true, if_false] at hsz
+              split at hsz
+              · cases hsz
+              · rename_i hn
+                simp only [tooLarge, hL, decide_true, Bool.true_and, decide_eq_true_eq] at hn
+                right; omega
+          rcases hbody with hbody | hbody <;> omega
+        · -- extended length incomplete: at most 9 bytes cached
+          have := decodeHdr_neg_len s.cache hd hdec hb
+          omega
+
+theorem parse_need (g : Cfg) (e : Env) (s : S) (data : Bytes) (hw : Within g s) (hn : nextFrame g s = .need)
+    (he : (parse g e s data).err = none) : nextFrame g (parse g e s data).s = .need ∧ Within g (parse g e s data).s := by
+  rcases parse_cases g e s data with h | h | ⟨h, _⟩
+  · rw [h]; exact ⟨hn, hw⟩
+  · rw [h] at he; cases he
+  · rw [h] at he ⊢
+    exact run_end g e _ { s with cache := s.cache ++ data } [] (Nat.le_refl _) hw he
+
+theorem feed_need (g : Cfg) (e : Env) : ∀ (segs : List Bytes) (s : S) (acts : List Act), Within g s → nextFrame g s = .need →
+    (feed g e s segs acts).err = none → nextFrame g (feed g e s segs acts).s = .need := by
+  intro segs
+  induction segs with
+  | nil => intro s acts _ hn _; exact hn
+  | cons seg segs ih =>
+    intro s acts hw hn he
+    unfold feed at he ⊢
+    cases herr : (parse g e s seg).err with
+    | some er => rw [herr] at he; cases he
+    | none =>
+      rw [herr] at he
+      simp only at he ⊢
+      have := parse_need g e s seg hw hn herr
+      exact ih _ _ this.2 this.1 he
 
 end Ws
